@@ -436,7 +436,7 @@ func execDet(h *vh.H, op string, args []*j5sgen.Node) string {
 	clash := hasImpliedClash(b)
 	repeats := 1
 	if clash {
-		repeats = 12
+		repeats = 6
 		h.Count("det.implied-name-clash")
 	}
 	for k := 0; k < repeats; k++ {
@@ -463,7 +463,7 @@ func execDet(h *vh.H, op string, args []*j5sgen.Node) string {
 	r := rand.New(rand.NewPCG(hs.Sum64(), 14))
 	extra := 3
 	if h.Tier == "thorough" {
-		extra = 10
+		extra = 5
 	}
 	for k := 0; k < extra; k++ {
 		ev := randomVariant(r, b)
@@ -477,7 +477,7 @@ func execDet(h *vh.H, op string, args []*j5sgen.Node) string {
 	// fresh processes (a different map hash seed each)
 	procs := 2
 	if h.Tier == "thorough" {
-		procs = 6
+		procs = 3
 	}
 	if clash {
 		procs = 20
